@@ -14,6 +14,12 @@ def P(name, **kw):
 
 def all_proofs():
     return [
+        Proof('newlines_remove_disallowed', impl='contracts/C20/remdis.impl.cpp', spec='contracts/C20/remdis.spec.c', harness='h_newlines_remove_disallowed', plain=True, no_contract=True, canaries=2, rules={},
+              nondet_static='.*(g_nav_fuel|g_can_increase|cpd).*', unwind=7, slice_formula=True, expect=['postcondition: newlines_remove_disallowed'], drop_flags=['--conversion-check'],
+              functions=['newlines/remove.cpp:newlines_remove_disallowed'],
+              assumed=['chunk navigation (fuel 4); the head of the list is nobody\'s successor', 'can_increase_nl: its own contract (C20-K3); here one arbitrary answer per chunk'],
+              mutants=[('also_visits_the_head', r'Chunk \*pc = Chunk::GetHead\(\);\n   Chunk \*next;\n\n   while \(\(pc = pc->GetNextNl\(\)\)->IsNotNullChunk\(\)\)\n   \{', 'Chunk *pc = Chunk::GetHead();\n   Chunk *next;\n\n   for ( ; pc->IsNotNullChunk(); pc = pc->GetNextNl())\n   {', 'postcondition'),
+                       ('lowers_everywhere', r'&& !can_increase_nl\(pc\)\)', '&& (can_increase_nl(pc) || true))', 'postcondition')]),
         P('blank_line_max', functions=['newlines/blank_line.cpp:blank_line_max', 'chunk.h:Chunk::GetNlCount', 'chunk.h:Chunk::SetNlCount'],
           mutants=[('cap_off_by_one', r'pc->GetNlCount\(\) > optval\)', 'pc->GetNlCount() > optval + 1)', 'postcondition'),
                    ('set_instead_of_max', r'&& \(pc->GetNlCount\(\) > optval\)\)', '&& (pc->GetNlCount() != optval))', 'postcondition')]),
@@ -60,7 +66,7 @@ PROOFS = all_proofs()
 EXPLANATION = ('Kernel of C20: blank_line_max caps nl_count at the option value (min), blank_line_set sets it, both only when the option is > 0 and the chunk is real; '
                'newlines_eat_start_end implements the documented ignore/add/remove/force policy with the _min values at both ends of the file (ghost list ends); '
                'too_big_for_nl_max returns normally only if every blank-line count option (set generated from the option documentation) is <= nl_max.')
-K = ['K4 do_blank_lines (one iteration of the chunk loop): with nl_max = N > 0 and every documented count option <= N, a newline chunk that is touched ends with at most N line breaks (the +-1 bookkeeping of the first / last newline included)',
+K = ['K6 newlines_remove_disallowed (runs after a code_width split): a count is only lowered to 1, only where can_increase_nl() forbids blank lines, and the first chunk of the file (nl_start_of_file_min) is left alone', 'K4 do_blank_lines (one iteration of the chunk loop): with nl_max = N > 0 and every documented count option <= N, a newline chunk that is touched ends with at most N line breaks (the +-1 bookkeeping of the first / last newline included)',
      'K5 can_increase_nl: with eat_blanks_before_close_brace / eat_blanks_after_open_brace a newline next to the brace may not grow (result false => do_blank_lines forces one line break), except for the documented overrides nl_inside_namespace > 0 and nl_inside_empty_func > 0',
      'K1 blank_line_max / blank_line_set', 'K2 newlines_eat_start_end: exact start/end-of-file policy; on a one-chunk file the chunk is deleted at most once and not touched afterwards', 'K3 too_big_for_nl_max covers every count option of the registry']
 G = [
